@@ -632,6 +632,22 @@ PROPS["C01"] = {
         "Lace.C01.parse_stmt_tokens",
         "Lace.C01.airOf_words",
         "Lace.C01.stmt_tokens_to_spec",
+        "Lace.C01.lexes_reg_chars",
+        "Lace.C01.lexes_kw",
+        "Lace.C01.lexes_dir",
+        "Lace.C01.lexes_lit",
+        "Lace.C01.lexes_str",
+        "Lace.C01.lexes_label",
+        "Lace.C01.lexKind_label",
+        "Lace.C01.advanceRealLoop_gap",
+        "Lace.C01.preprocess_textRel",
+        "Lace.C01.textRel_render",
+        "Lace.C01.preprocess_render",
+        "Lace.C01.parse_tokens_image",
+        "Lace.C01.assemble_image_render",
+        "Lace.C01.layout_irrelevant_render",
+        "Lace.C01.lexKind_label_iff",
+        "Lace.C01.fullOk_of_lt",
     ],
     "compare": cmp_default,
     "classify": enc_classify,
@@ -651,12 +667,15 @@ PROPS["C01"] = {
              "each rendered under TWO random layouts whose images must agree (`layout-diff` otherwise). Corpus: D1, D2, "
              "D3, D6, D7 witnesses, duplicate / undefined / case-differing labels, .orig twice, stack flag."),
     "trusted": [
-        "the harness renderer (enc.rs: AProg::pieces, asmgen.rs: layout, spell_lit) realises the relation `t is a layout of P`",
-        "text-level theorem assemble_image is stated, not proved: text -> AIR is covered by this correspondence only",
+        "text-level theorem assemble_image_render is proved for Spec.render (Lace/Spec/Render.lean). That the harness renderer (enc.rs: "
+        "AProg::pieces, asmgen.rs: layout, spell_lit) stays inside the range of Spec.render is CHECKED on every run, not proved: for every "
+        "text of an accepted program the driver reads a layout L off the text (Driver/Layout.lean, untrusted) and evaluates "
+        "`render L P = text and L.ok P` (`outside-render-range` otherwise); it also renders P itself under the canonical layout and "
+        "checks model(render L0 P) = Spec.Prog.image (`spec-render-mismatch`)",
     ],
     "assumptions": [
         "labels are valid label names whatever the stack flag (I13); a label marks a statement of at least one word",
-        "a program of exactly 65,535 words followed by .break / .orig is outside the generated set",
+        "a program of exactly 65,535 words followed by .break / .orig / a label is outside Spec.render's range (Prog.renderable / fullOk): lace answers `too many`, Spec.Prog.image accepts",
     ],
 }
 
